@@ -186,6 +186,25 @@ func (g *c10Gen) input() c10Input {
 		e = append(e[:p:p], append([]byte(g.pick([]string{"\x00", "\xac", "\n", "\r\n", " ", "\t"})), e[p:]...)...)
 		return c10Input{Hex: fmt.Sprintf("%x", e), Class: "envelope-embedded-byte"}
 	}
+	if rng.Intn(6) == 0 {
+		// individually valid commands in an order no client produces
+		f := g.files[0]
+		valid := []string{
+			"tail " + f + " regex:noop ", "cat " + f + " regex:noop ", "grep " + f + " regex:default line",
+			"tail:plain=true " + g.files[1] + " regex:noop ", "cat:quiet=true " + g.dir + "/*.log regex:noop ",
+			"map select count($line) from STATS group by $hostname", "map from STATS select count($line),max($goroutines) group by $hostname interval 1",
+			"map " + g.queries[rng.Intn(len(g.queries))], ".ack close connection", "grep:max=1:after=2 " + f + " regex:invert two",
+		}
+		n := 2 + rng.Intn(4)
+		var b bytes.Buffer
+		var names []string
+		for i := 0; i < n; i++ {
+			c := valid[rng.Intn(len(valid))]
+			names = append(names, strings.SplitN(strings.SplitN(c, " ", 2)[0], ":", 2)[0])
+			b.WriteString("protocol 4.1 base64 " + base64.StdEncoding.EncodeToString([]byte(c)) + ";")
+		}
+		return c10Input{Hex: fmt.Sprintf("%x", b.Bytes()), Class: "valid-sequence/" + strings.Join(names, ",")}
+	}
 	// a sequence of 1..4 commands in one session
 	n := 1 + rng.Intn(4)
 	var b bytes.Buffer
@@ -232,14 +251,12 @@ func c10HandlerChild(args []string) int {
 		var out bytes.Buffer
 		var omu sync.Mutex
 		stop := make(chan struct{})
+		readerDone := make(chan struct{})
 		go func() {
+			defer close(readerDone)
 			buf := make([]byte, 32768)
 			for {
-				select {
-				case <-stop:
-					return
-				default:
-				}
+				// like the transport's copy loop: read until the handler reports EOF
 				n, err := h.Read(buf)
 				if n > 0 {
 					omu.Lock()
@@ -258,7 +275,10 @@ func c10HandlerChild(args []string) int {
 		time.Sleep(40 * time.Millisecond)
 		h.Shutdown()
 		close(stop)
-		time.Sleep(2 * time.Millisecond)
+		select {
+		case <-readerDone:
+		case <-time.After(3 * time.Second):
+		}
 		omu.Lock()
 		defer omu.Unlock()
 		return map[string]interface{}{"resp_len": out.Len(), "resp": vlib.Trunc(out.String(), 120), "ms": time.Since(t0).Milliseconds()}
